@@ -136,7 +136,7 @@ Definition unmarshal_group (b : bytes) : ures pb_group := umap group_of (unmarsh
 
 (* Marshal: None = RequiredNotSetError (a required pointer field is nil, at any depth) *)
 Definition marshal (m : string) (l : occs) : option bytes :=
-  if req_ok_gen true (S (S (S (S O)))) sc m l then Some (enc_occs l) else None.
+  if req_ok_gen true req_depth sc m l then Some (enc_occs l) else None.
 Definition marshal_tx (p : pb_tx) := marshal "Transaction" (tx_occs p).
 Definition marshal_txs (p : list pb_tx) := marshal "TransactionSlice" (txs_occs p).
 Definition marshal_hdr (p : pb_hdr) := marshal "BlockHeader" (hdr_occs p).
